@@ -133,6 +133,12 @@ structure Params (P S : Type) where
   parseSrc : S → Except Nat (SrcFile P)
   /-- `resolve_relative_path(from_file, literal)` -/
   res : P → P → P
+  /-- `normalize_path`: `resolve_operation_imports` knows the ROOT document by `normalize_path(root_file_name)` (its
+      initial `expanded` set), while the task looks its root document up under the name as supplied.  The code resolves
+      the root's own literals against the name as supplied; the model resolves them against `norm root`, which is the
+      same whenever `res (norm p) r = res p r` — true of `resolve_relative_path`, which normalises its base
+      (`Paths.resolve_normalize_base` for the C20 model) -/
+  norm : P → P
   /-- `Nat`-coding of fragment names (import lines carry coded names) -/
   code : Name → Nat
   /-- the `CONFIG` cell -/
@@ -158,7 +164,8 @@ def emitFiles (root : P) (files : List (P × Loader.Doc P S)) : EmitRes JsModule
   match (projOf π files).lookup root with
   | none => .err 0    -- `get_root_document`: not reached, `Loader.stepCall` traps before calling the emitter
   | some rootFile =>
-    match resolveDoc π.code π.res (projOf π files) root rootFile with
+    -- the root document is looked up under its name as supplied, the import resolver starts from the normalised name
+    match resolveDoc π.code π.res (projOf π files) (π.norm root) rootFile with
     | .err e => .err (π.eImp e)
     | .outOfFuel => .trap
     | .ok R =>
@@ -241,12 +248,12 @@ theorem emitFiles_ne_trap (root : P) (files : List (P × Loader.Doc P S)) : emit
   | none => simp
   | some rootFile =>
     simp only
-    cases hr : resolveDoc π.code π.res (projOf π files) root rootFile with
+    cases hr : resolveDoc π.code π.res (projOf π files) (π.norm root) rootFile with
     | err e => simp
     | outOfFuel =>
       exfalso
       unfold resolveDoc at hr
-      cases hq : resolve π.res (absFS π.code (projOf π files)) root (absFile π.code rootFile) with
+      cases hq : resolve π.res (absFS π.code (projOf π files)) (π.norm root) (absFile π.code rootFile) with
       | ok out => rw [hq] at hr; cases hr
       | err e => rw [hq] at hr; cases hr
       | outOfFuel => exact resolve_fuel _ _ _ _ hq
